@@ -801,6 +801,9 @@ type gCase struct {
 	parts  [][]byte
 	kinds  []string
 	big    bool
+	// shared: what went wrong when further Configs were started from the same first Setting value
+	shared    string
+	piecewise bool
 }
 
 // genCase builds a config from the public constructors: 1..n groups, each with at most one
@@ -877,6 +880,34 @@ func finishCase(gp *gCase, r *Rng) {
 			}
 			g.parts = append(g.parts, cfg.Bytes(real...))
 			switch {
+			case gi == 0 && len(real) > 0 && real[0] != nil && r.Chance(40):
+				// Configs and Settings are values: the first group is built piecewise (Pack of the
+				// first Setting alone, then one Add per Setting) while two more Configs are started from
+				// the SAME first Setting value and extended differently in between. None of the three
+				// may change another (or the Setting).
+				first := append([]byte(nil), cfg.Bytes(real[0])...)
+				g.conf = cfg.Pack(real[0])
+				d1 := cfg.Pack(real[0])
+				if len(real) > 1 {
+					g.conf.Add(real[1])
+				}
+				d1.Add(cfg.ConnectTCP)
+				d2 := cfg.Pack(real[0])
+				d2.Add(cfg.ConnectUDP, cfg.Jitter(50))
+				for k := 2; k < len(real); k++ {
+					g.conf.Add(real[k])
+				}
+				w1 := append(append([]byte(nil), first...), cfg.Bytes(cfg.ConnectTCP)...)
+				w2 := append(append([]byte(nil), first...), cfg.Bytes(cfg.ConnectUDP, cfg.Jitter(50))...)
+				switch {
+				case !bytes.Equal(d1, w1):
+					g.shared = "the first of two further Configs started from the same Setting value was changed: " + hx(d1) + " want " + hx(w1)
+				case !bytes.Equal(d2, w2):
+					g.shared = "the second of two further Configs started from the same Setting value was changed: " + hx(d2) + " want " + hx(w2)
+				case !bytes.Equal(cfg.Bytes(real[0]), first):
+					g.shared = "the Setting value itself was changed"
+				}
+				g.piecewise = true
 			case gi == 0:
 				g.conf = cfg.Pack(real...)
 			case len(real) > 1 && r.Chance(25): // AddGroup + Add is the same as one AddGroup
@@ -1005,6 +1036,12 @@ func evalCase(c *Ctx, r *Rng, g gCase) {
 			c.Eval(true, strings.Join(g.toks, " "))
 			return
 		}
+		if g.piecewise {
+			c.Count("pack:piecewise+shared-setting")
+		}
+		if g.shared != "" {
+			c.Fail("frame", "shared-setting:config-changed", "Configs built from one Setting value are not independent: "+trunc(g.shared, 400), in)
+		}
 		raw := exact(g.conf)
 		c.Op("pack "+strings.Join(g.toks, " "), hx(raw))
 		a := cfgRunAll(raw)
@@ -1112,6 +1149,7 @@ func accessorOracle(c *Ctx, p cfg.Profile, g gCase, in interface{}) {
 	if (w == nil) != (e.work == nil) || (w != nil && [5]int{int(w.Days), int(w.StartHour), int(w.StartMin), int(w.EndHour), int(w.EndMin)} != *e.work) {
 		c.Fail("accessor", "accessor:WorkHours", "WorkHours() differs from the supplied value", in)
 	}
+	wrapOrderOracle(c, p, g, in)
 	h, _, _ := p.Next()
 	found := len(e.hosts) == 0 && h == ""
 	for _, x := range e.hosts {
@@ -1121,6 +1159,64 @@ func accessorOracle(c *Ctx, p cfg.Profile, g gCase, in interface{}) {
 	}
 	if !found {
 		c.Fail("accessor", "accessor:Next", "Next() returned a host that was not supplied", in)
+	}
+}
+
+// wrapOrderOracle: "the wrapper stack is exactly the one supplied, in the supplied order" as a
+// statement about what the stack does: the bytes the built stack puts on the wire are the
+// composition of the single layers - each built alone from the same Setting - applied to the data in
+// the order supplied (first supplied first). A stack that holds the right layers in the right slots
+// but applies them in another order cannot talk to a peer built from the same profile by other code.
+func wrapOrderOracle(c *Ctx, p cfg.Profile, g gCase, in interface{}) {
+	var layers []gSet
+	for _, ss := range g.groups {
+		for _, s := range ss {
+			switch s.name {
+			case "wrapflag", "xor", "aes", "cbk":
+				if !s.ok || s.big {
+					return
+				}
+				layers = append(layers, s)
+			}
+		}
+	}
+	if len(layers) < 2 || len(layers) > 6 {
+		return
+	}
+	_, w, _ := p.Next()
+	if w == nil {
+		return
+	}
+	probe := make([]byte, 150)
+	for i := range probe {
+		probe[i] = byte(i*7 + i/16)
+	}
+	var whole recSink
+	if err, pan := writeThrough(w, &whole, [][]byte{probe}); err != nil || pan != "" {
+		c.Count("wrap-order:stack-write-refused")
+		return
+	}
+	cur := probe
+	for _, l := range layers {
+		var wi cfg.Wrapper
+		if pan := guardC08("layer", func() {
+			if pi, err := cfg.Build(cfg.Host("h"), l.mk()); err == nil {
+				_, wi, _ = pi.Next()
+			}
+		}); pan != "" || wi == nil {
+			c.Count("wrap-order:layer-not-built")
+			return
+		}
+		var sink recSink
+		if err, pan := writeThrough(wi, &sink, [][]byte{cur}); err != nil || pan != "" {
+			c.Count("wrap-order:layer-write-refused")
+			return
+		}
+		cur = sink.all()
+	}
+	c.Count(fmt.Sprintf("wrap-order:checked:depth=%d", len(layers)))
+	if !bytes.Equal(whole.all(), cur) {
+		c.Fail("order", "wrapper-order:applied", fmt.Sprintf("the built wrapper stack does not apply its %d layers in the supplied order: wire %s, composition of the single layers %s", len(layers), trunc(hx(whole.all()), 200), trunc(hx(cur), 200)), in)
 	}
 }
 
